@@ -29,12 +29,19 @@ impl Story {
 
     /// Removes the specified flow from the story.
     pub fn remove_flow(&mut self, flow_name: &str) -> Result<(), StoryError> {
+        self.if_async_we_cant("remove a flow")?;
+
         self.get_state_mut().remove_flow_internal(flow_name)
     }
 
     /// Switches to the default flow, keeping the current flow around for
     /// later.
     pub fn switch_to_default_flow(&mut self) {
+        // Not allowed in the middle of a continue_async(): the call is ignored.
+        if self.if_async_we_cant("switch to the default flow").is_err() {
+            return;
+        }
+
         self.get_state_mut().switch_to_default_flow_internal();
     }
 }
